@@ -229,6 +229,16 @@ func H_Enqueue_ExactIn() {
 	}
 	vrf.Cover("accepted")
 	vrf.Assert(n == 2, "C04: accepted request queued under a fresh index (older request kept)")
+	// what is queued is what the user signed: the end-of-block execution enforces the limits of the queued copy
+	for _, q := range env.Amm.GetAllSwapExactAmountInRequests(ctx) {
+		if q.Sender != alice.String() {
+			continue
+		}
+		vrf.Assert(q.TokenIn.Denom == atom && q.TokenIn.Amount.Equal(in), "C04: the queued request carries the stated input")
+		vrf.Assert(!q.TokenOutMinAmount.IsNil() && q.TokenOutMinAmount.Equal(min), "C04: the queued request carries the user's minimum output (the limit enforced when it is executed at the end of the block)")
+		vrf.Assert(len(q.Routes) == 1 && q.Routes[0].PoolId == 1 && q.Routes[0].TokenOutDenom == usdc, "C04: the queued request carries the stated route")
+		vrf.Assert(q.Recipient == "" || q.Recipient == alice.String(), "C04: the queued request pays the stated recipient")
+	}
 }
 
 // contract of Pool.SwapOutAmtGivenIn for an oracle pool: any positive output, any oracle output >= 0, any
@@ -428,4 +438,38 @@ func H_EndBlocker_One_ExactIn_TwoHops() {
 	vrf.Assert(env.W.BalOf(alice, usdt).Equal(aUsdt), "C04: sender's output-denom balance untouched (separate recipient)")
 	vrf.Assert(env.W.BalOf(bob, atom).Equal(w.bAtom), "C04: recipient receives nothing of the intermediate denom")
 	vrf.Assert(env.W.BalOf(bob, usdc).Equal(w.bUsdc), "C04: recipient's input-denom balance untouched")
+}
+
+// Enqueue side, exact-out form: nothing moves at acceptance and the queued copy carries the user's limits.
+//
+//vrf:summary (*github.com/elys-network/elys/x/amm/types.Pool).SwapInAmtGivenOut => sumSwapIn
+//vrf:summary (*github.com/elys-network/elys/x/amm/types.Pool).CalcInAmtGivenOut => sumCalcIn
+//vrf:summary (github.com/elys-network/elys/x/tier/keeper.Keeper).GetMembershipTier => sumTier
+//vrf:cover accepted rejected
+//vrf:bound 1 exact-out message, 1-hop route, separate recipient
+func H_Enqueue_ExactOut() {
+	w := setup()
+	env, ctx := w.env, w.env.Ctx
+	maxIn, out := vrf.Int("maxIn"), vrf.Int("out")
+	vrf.Assume(maxIn.IsPositive())
+	vrf.Assume(out.IsPositive())
+	sends := env.W.Sends
+	m := &ammtypes.MsgSwapExactAmountOut{Sender: alice.String(), Recipient: bob.String(), Routes: []ammtypes.SwapAmountOutRoute{{PoolId: 1, TokenInDenom: atom}}, TokenOut: sdk.Coin{Denom: usdc, Amount: out}, TokenInMaxAmount: maxIn}
+	_, err := env.Amm.SwapExactAmountOut(ctx, m)
+	vrf.Assert(env.W.Sends == sends, "C04: accepting a request moves no funds")
+	vrf.Assert(env.W.BalOf(alice, atom).Equal(w.aAtom), "C04: sender balance untouched at enqueue")
+	qs := env.Amm.GetAllSwapExactAmountOutRequests(ctx)
+	if err != nil {
+		vrf.Cover("rejected")
+		vrf.Assert(len(qs) == 0, "C04: rejected request is not queued")
+		return
+	}
+	vrf.Cover("accepted")
+	vrf.Assert(len(qs) == 1, "C04: accepted request is queued once")
+	for _, q := range qs {
+		vrf.Assert(q.Sender == alice.String() && q.Recipient == bob.String(), "C04: the queued request names the stated sender and recipient")
+		vrf.Assert(q.TokenOut.Denom == usdc && q.TokenOut.Amount.Equal(out), "C04: the queued request carries the stated output")
+		vrf.Assert(!q.TokenInMaxAmount.IsNil() && q.TokenInMaxAmount.Equal(maxIn), "C04: the queued request carries the user's maximum input (the limit enforced when it is executed at the end of the block)")
+		vrf.Assert(len(q.Routes) == 1 && q.Routes[0].PoolId == 1 && q.Routes[0].TokenInDenom == atom, "C04: the queued request carries the stated route")
+	}
 }
